@@ -433,7 +433,7 @@ theorem reformat_afa_idempotent (m : FMsa) (h : AfaTextWritable m) :
     afaRead_write none (afaCfg none) id m (afaTextWritable_writable m h)
   rw [reformatMsa_single {} "afa" "afa" _ (afaRead (afaCfg none)) _ (by simp [readerOf]) hr (by simp [afaRead, runLines, afaFinish]),
       transform_no_option]
-  simp [writeOne, msafileWrite, afaWrite_project_text m h]
+  simp [writeOne, msafileWriteTool_afa, msafileWrite, afaWrite_project_text m h]
 
 /-- … PHYLIP (either flavour) written by the tool and converted to aligned FASTA by the tool gives the names (first ten
     characters) and rows of the alignment: the AFA rendering of C03's `phylipProject` -/
@@ -444,11 +444,11 @@ theorem reformat_phylip_to_afa (seq : Bool) (m : FMsa) (h : PhylipTextWritable m
   · have hr := phylipRead_write none (phylipCfg none) id _ m (phylipTextWritable_writable m h)
     rw [show (if false = true then "phylips" else "phylip") = "phylip" from rfl,
         reformatMsa_single {} "phylip" "afa" _ (phylipRead false (phylipCfg none)) _ (by simp [readerOf]) hr (by decide), transform_no_option]
-    simp [writeOne, msafileWrite]
+    simp [writeOne, msafileWriteTool_afa, msafileWrite]
   · have hr := phylipsRead_write none (phylipCfg none) id _ m (phylipTextWritable_writable m h)
     rw [show (if true = true then "phylips" else "phylip") = "phylips" from rfl,
         reformatMsa_single {} "phylips" "afa" _ (phylipRead true (phylipCfg none)) _ (by simp [readerOf]) hr (by decide), transform_no_option]
-    simp [writeOne, msafileWrite]
+    simp [writeOne, msafileWriteTool_afa, msafileWrite]
 
 /-- `--namelen n` changes nothing for the eight formats that are not PHYLIP -/
 theorem reformat_namelen_ignored_elsewhere (n : Nat) (outfmt : String) (m : FMsa) (h1 : outfmt ≠ "phylip") (h2 : outfmt ≠ "phylips") :
@@ -618,6 +618,19 @@ example : (EaselModel.Msa.wuss2ct (EaselModel.Msafile.str "<<..>>")).bind (fun k
   decide +kernel
 
 end Compstruct
+
+/-! ## esl-alimask -p (`Miniapps/Alimask.lean: ppCounts, ppMask`): binary64/binary32 arithmetic, tied by exact comparison only;
+    what is decidable is where the tool STOPS -/
+section AlimaskPP
+open EaselModel.Msafile EaselModel.Miniapps.Ali
+
+/-- a PP gap under a residue, a character that is no PP class, or a sequence without a PP line stops the tool (no mask) -/
+example : (ppCounts EaselModel.Msa.Gen.rnaAbc [str "A"] [some (str ".")] 0).isNone = true := by decide +kernel
+example : (ppCounts EaselModel.Msa.Gen.rnaAbc [str "A"] [some (str "x")] 0).isNone = true := by decide +kernel
+example : (ppCounts EaselModel.Msa.Gen.rnaAbc [str "A", str "C"] [some (str "9"), none] 0).isNone = true := by decide +kernel
+example : (ppCounts EaselModel.Msa.Gen.rnaAbc [str "A", str "-"] [some (str "9"), some (str ".")] 0).isSome = true := by decide +kernel
+
+end AlimaskPP
 
 /-! ## esl-afetch: "fetching returns the requested records" (`Miniapps/Afetch.lean`; complete stdout / output file compared) -/
 section Afetch
